@@ -40,3 +40,19 @@ Definition c11_recv_ack (c : N * N * N * Z * N * N * N * N) : bool :=
   | Err => code =? 1
   | Panic => code =? 2
   end.
+
+(* extension round *)
+Definition c11_dec_status (c : bytes * N * option bytes * N * N) :=
+  let '(b, code, v, r, al) := c in c18_dec_status (b, code, v, r) && alloc_ok dec_status b al.
+Definition c11_dec_winsize (c : bytes * N * winsize * N * N) :=
+  let '(b, code, v, r, al) := c in c18_dec_winsize (b, code, v, r) && alloc_ok dec_ws b al.
+Definition c11_dec_winloop (c : bytes * N * winsize * N * N) :=
+  let '(b, code, v, r, al) := c in c18_dec_winloop (b, code, v, r) && alloc_ok handle_size b al.
+Definition c11_dec_uareply (c : bytes * N * bool * N * N) :=
+  let '(b, code, v, r, al) := c in c18_dec_uareply (b, code, v, r) && alloc_ok dec_ua_reply b al.
+Definition c11_dec_proxyid (c : bytes * N * N * N * N) :=
+  let '(b, code, v, r, al) := c in c18_dec_proxyid (b, code, v, r) && alloc_ok dec_proxy_id b al.
+Definition c11_dec_intentreq (c : bytes * N * agmsg * N * N) :=
+  let '(b, code, v, r, al) := c in c18_dec_intentreq (b, code, v, r) && alloc_ok dec_intent_request b al.
+Definition c11_dec_intentcomm (c : bytes * N * agmsg * N * N) :=
+  let '(b, code, v, r, al) := c in c18_dec_intentcomm (b, code, v, r) && alloc_ok dec_intent_comm b al.
